@@ -60,6 +60,9 @@ struct Rng {
   int below(int n) { return int(next() % uint64_t(n)); }
 };
 
+// what an opaque user function can read on its own: a value of the event being processed
+inline double event_value() { return double(mix(sim().seed * 7919ULL + uint64_t(sim().event)) % 97) * 0.25; }
+
 inline int size_profile() {
   uint64_t k = mix(sim().seed ^ 0x5eedc0ffeeULL) % 10;
   return k < 6 ? 0 : (k < 8 ? 1 : 2);
@@ -180,17 +183,34 @@ template <class T> std::shared_ptr<T> make_product(const std::string& type, cons
 }
 
 // one store per delivery: the same (type, bank) asked twice yields the same object
+// When an event ends its products are not freed at once: they are *poisoned* (rebuilt from a fixed seed, so sizes and
+// values change) and kept alive for two more events. Whatever still points at a product of an earlier event - a cached
+// container pointer, a handle kept in a member - then reads the poison instead of happening to find the next event's
+// data at a recycled address, and the stale read is deterministic (no use-after-free needed to see it).
 class ProductCache {
   std::map<std::string, std::shared_ptr<void>> cache_;
+  std::vector<std::function<void()>> poison_;
+  std::vector<std::map<std::string, std::shared_ptr<void>>> retired_;
  public:
   template <class T> std::shared_ptr<const T> get(const std::string& bank) {
     std::string type = TypeName<T>::get();
     std::string key = type + "|" + bank;
     auto it = cache_.find(key);
-    if (it == cache_.end()) it = cache_.emplace(key, std::static_pointer_cast<void>(make_product<T>(type, bank))).first;
+    if (it == cache_.end()) {
+      std::shared_ptr<T> p = make_product<T>(type, bank);
+      uint64_t h = hstr(key);
+      poison_.push_back([p, h]() { Rng r{0xdeadbeefcafef00dULL ^ h}; p->build(r); });
+      it = cache_.emplace(key, std::static_pointer_cast<void>(p)).first;
+    }
     return std::static_pointer_cast<const T>(it->second);
   }
-  void clear() { cache_.clear(); }
+  void clear() {
+    for (auto& f : poison_) f();
+    poison_.clear();
+    if (!cache_.empty()) retired_.push_back(std::move(cache_));
+    cache_.clear();
+    while (retired_.size() > 2) retired_.erase(retired_.begin());
+  }
 };
 ProductCache& products();
 
